@@ -2,8 +2,9 @@
 (* SCALE (C02 / C04 / C05 / C12): the requirements of Goom.tla on MANY objects at once - the regime in which tables grow,
    maps are rehashed, several targets share a page and "the first / the last / the 17th" element takes another path.
      N targets S1..SN (consecutive small functions: dozens per page), mocked in GROUPS
-       MockShared(g, kind)   the shared builder b1 mocks every target of group g (Apply with a closure / Return stub)
-       MockFresh(g, kind)    every target of g gets (or re-uses) a builder of its OWN
+       MockShared(g, kind, via)   the shared builder b1 mocks every target of group g (Apply with a closure / Return stub),
+                                  through a fresh lookup or through the handle kept from the latest lookup
+       MockFresh(g, kind, via)    every target of g gets (or re-uses) a builder of its OWN
        CancelShared(g)       the cached mockers of b1 for the targets of g are cancelled one by one
        ResetShared           b1.Reset(): every target b1 holds is original again - and no other
        ResetFresh(g)         Reset of the own builders of the targets of g
@@ -47,7 +48,7 @@ ExpOf(f) == LET M == {j \in T : f[j] # 0}                      \* mocked targets
             IN [i \in {j \in T \ M : Obj[j] \in MO} |-> -1] @@ f         \* (a function over 1..N is a sequence)
 Rec(r, f) == hist' = Append(hist, r @@ [exp |-> ExpOf(f), cn |-> cstub'.n, cid |-> cstub'.id, qn |-> qstub'.n, qid |-> qstub'.id])
 
-MockShared(g, kind) ==
+MockShared(g, kind, via) ==
     LET G == TLCEval(Groups[g]) OG == TLCEval(Of(G))
         nr == TLCEval([i \in G |-> nid + 1] @@ repl) IN                     \* (@@ is implemented natively: left operand wins)
     /\ {i \in G : ever[Obj[i]] = "fresh"} = {}                \* disjoint builders (C11)   (sets, not \A: TLC unfolds \A recursively)
@@ -57,8 +58,8 @@ MockShared(g, kind) ==
     /\ own' = TLCEval([o \in OG |-> "shared"] @@ own) /\ ever' = TLCEval([o \in OG |-> "shared"] @@ ever)
     /\ repl' = nr
     /\ UNCHANGED <<cstub, qstub, qpos>>
-    /\ Rec([op |-> "MockShared", g |-> g, is |-> Ids(G), kind |-> kind, id |-> nid + 1], nr)
-MockFresh(g, kind) ==
+    /\ Rec([op |-> "MockShared", g |-> g, is |-> Ids(G), kind |-> kind, via |-> via, id |-> nid + 1], nr)
+MockFresh(g, kind, via) ==
     LET G == TLCEval(Groups[g]) OG == TLCEval(Of(G))
         nr == TLCEval([i \in G |-> nid + 1] @@ repl) IN
     /\ {i \in G : ever[Obj[i]] = "shared"} = {}
@@ -68,7 +69,7 @@ MockFresh(g, kind) ==
     /\ own' = TLCEval([o \in OG |-> "fresh"] @@ own) /\ ever' = TLCEval([o \in OG |-> "fresh"] @@ ever)
     /\ repl' = nr
     /\ UNCHANGED <<cstub, qstub, qpos>>
-    /\ Rec([op |-> "MockFresh", g |-> g, is |-> Ids(G), kind |-> kind, id |-> nid + 1], nr)
+    /\ Rec([op |-> "MockFresh", g |-> g, is |-> Ids(G), kind |-> kind, via |-> via, id |-> nid + 1], nr)
 CancelShared(g) ==
     LET G == TLCEval(Groups[g])
         S == TLCEval({i \in G : own[Obj[i]] = "shared" /\ repl[i] # 0})
@@ -122,7 +123,10 @@ CallQ(m) == /\ SeqSizes # {}
             /\ Rec([op |-> "CallQ", m |-> m, expq |-> [j \in 1..m |-> QVal(qpos + j)]], repl)
 
 Finish == Len(hist) = MaxOps /\ hist' = Append(hist, [op |-> "End"]) /\ UNCHANGED <<own, ever, repl, lk, nid, cstub, qstub, qpos>>
-Step == \/ \E g \in GroupNames, k \in {"apply", "return"} : MockShared(g, k) \/ MockFresh(g, k)
+\* via: "lookup" = the mocker is asked for again (b.Func(f), b.Var(&v) ...), "held" = the handle kept from the target's LATEST lookup in that
+\* builder (the one the builder itself still refers to) is used again - also after it was cancelled or its builder reset
+\* (C12: a handle continues the configuration; handles that a later lookup has superseded are stale and not used)
+Step == \/ \E g \in GroupNames, k \in {"apply", "return"}, via \in {"lookup", "held"} : MockShared(g, k, via) \/ MockFresh(g, k, via)
         \/ \E g \in GroupNames : CancelShared(g) \/ ResetFresh(g)
         \/ ResetShared
         \/ \E n \in CondSizes : CondStub(n)
